@@ -1199,6 +1199,26 @@ package erpc
 //@   flags libframe
 //@   modifies ghost.heldAtCall
 //@   ghostset ghost.heldAtCall = ghost.poolGets - ghost.poolPuts
+//@ ext (reflect.Value).Call in erpc.makeCallHandlersFromFunc$3
+//@   flags libframe
+//@   modifies ghost.heldAtCall
+//@   ghostset ghost.heldAtCall = ghost.poolGets - ghost.poolPuts
+//@ ext (reflect.Value).Call in erpc.makePushHandlersFromFunc$3
+//@   flags libframe
+//@   modifies ghost.heldAtCall
+//@   ghostset ghost.heldAtCall = ghost.poolGets - ghost.poolPuts
+//@ func makeCallHandlersFromFunc$3
+//@   property C01
+//@   flags libframe
+//@   requires ctx != nil && ctxShape(ctx)
+//@   ensures[own-controller-per-invocation] ghost.poolGets == old(ghost.poolGets) + 1 && ghost.poolPuts == old(ghost.poolPuts) + 1
+//@   ensures[controller-held-while-the-function-runs] ghost.heldAtCall == old(ghost.poolGets - ghost.poolPuts) + 1
+//@ func makePushHandlersFromFunc$3
+//@   property C01
+//@   flags libframe
+//@   requires ctx != nil && ctxShape(ctx)
+//@   ensures[own-controller-per-invocation] ghost.poolGets == old(ghost.poolGets) + 1 && ghost.poolPuts == old(ghost.poolPuts) + 1
+//@   ensures[controller-held-while-the-function-runs] ghost.heldAtCall == old(ghost.poolGets - ghost.poolPuts) + 1
 //@ func makeCallHandlersFromStruct$2
 //@   property C01
 //@   flags libframe
